@@ -1,6 +1,6 @@
 CONSTANTS Variant = "columns"
           Size = "std"
-          Depth = 2
+          Depth = 3
           Hist = FALSE
 INIT Init
 NEXT Next
